@@ -93,7 +93,7 @@ def s3(ctx, rep):
                 ok = ok and cm.path(cm.entry, d, deleted=rp) is None
             edge = [(n.id, s) for n in cm.nodes if n.kind == "test" for s, l in cm.succ[n.id]
                     if isinstance(l, tuple) and l[0] == "cond" and any(a[0] == "in" and a[3] is True and "_trial_to_pending_slot" in a[2]
-                                                                        for a in atoms_of(l[1], l[2]))]
+                                                                        for a in atoms_of(l[1], l[2]) | common.derived_membership(m, atoms_of(l[1], l[2])))]
             ok = ok and bool(edge) and all(cm.path(s, cm.exit, deleted=dl, skip_labels=("exc",)) is None and
                                            cm.path(s, cm.exit, deleted=rp, skip_labels=("exc",)) is None for _, s in edge)
         rep.put(ok, "S3", "must_follow", f"{cname}.on_trial_error: pending slot reported as failed ≺ removed from pending", m, None, "",
